@@ -85,10 +85,17 @@ type TermFactory struct {
 }
 
 func NewTermFactory() *TermFactory {
-	f := &TermFactory{tab: map[termKey]*Term{}}
+	f := &TermFactory{tab: make(map[termKey]*Term, 1024)}
 	f.True = f.mk(OpConst, 0, 1, "")
 	f.False = f.mk(OpConst, 0, 0, "")
 	return f
+}
+
+// Recycle empties the factory for the next path (keeps the table's buckets).
+func (f *TermFactory) Recycle() {
+	clear(f.tab)
+	f.True = f.mk(OpConst, 0, 1, "")
+	f.False = f.mk(OpConst, 0, 0, "")
 }
 
 func mask(w uint8) uint64 {
